@@ -2,6 +2,8 @@ package simrt
 
 import (
 	"cmp"
+	"fmt"
+	"reflect"
 	"sort"
 )
 
@@ -31,6 +33,46 @@ func SortedEntries[M ~map[K]V, K cmp.Ordered, V any](m M) []Entry[K, V] {
 			for i, j := 0, len(out)-1; i < j; i, j = i+1, j-1 {
 				out[i], out[j] = out[j], out[i]
 			}
+		}
+	}
+	return out
+}
+
+// EntryAny is one key/value pair of a map whose key type has no order of its own.
+type EntryAny[K comparable, V any] struct {
+	K K
+	V V
+}
+
+// SortedEntriesAny is SortedEntries for maps whose key type is not ordered (a type parameter, a
+// struct): the snapshot is ordered by the keys' printed form. Keys whose printed form is an address
+// (pointers, channels, functions) have no run-independent order; the run is then marked as something
+// the simulator cannot represent.
+func SortedEntriesAny[M ~map[K]V, K comparable, V any](m M) []EntryAny[K, V] {
+	MapR(m)
+	type keyed struct {
+		s string
+		e EntryAny[K, V]
+	}
+	tmp := make([]keyed, 0, len(m))
+	for k, v := range m {
+		switch reflect.ValueOf(k).Kind() {
+		case reflect.Pointer, reflect.Chan, reflect.Func, reflect.UnsafePointer:
+			if s := S(); s != nil {
+				s.Unsupported("range over a map keyed by addresses: no deterministic iteration order exists")
+			}
+		}
+		tmp = append(tmp, keyed{fmt.Sprintf("%T:%v", k, k), EntryAny[K, V]{k, v}})
+	}
+	sort.Slice(tmp, func(i, j int) bool { return tmp[i].s < tmp[j].s })
+	out := make([]EntryAny[K, V], len(tmp))
+	for i, x := range tmp {
+		out[i] = x.e
+	}
+	if s := S(); s != nil && !s.ending && len(out) > 1 {
+		k := s.Tape.Choose(len(out), "map.range.start")
+		if k > 0 {
+			out = append(append(make([]EntryAny[K, V], 0, len(out)), out[k:]...), out[:k]...)
 		}
 	}
 	return out
